@@ -231,6 +231,13 @@ def main(argv):
         if closed < spec.get("min_closed", 1):
             proof_problems.append("Print Assumptions reported %d closed theorems, expected >= %d"
                                   % (closed, spec.get("min_closed", 1)))
+    coqchk_summary = None
+    if tier == "thorough" and files and not proof_problems:
+        # independent re-check of the compiled property module and everything it depends on
+        rc, o = sh("timeout 3000 coqchk -silent -o -Q theories Traph Traph.Props.%s 2>&1 | tail -14" % prop, 3100, cwd=COQ)
+        coqchk_summary = " ".join(o.split())
+        if "Axioms: <none>" not in coqchk_summary or "type-in-type: <none>" not in coqchk_summary:
+            proof_problems.append("coqchk does not report an axiom-free, check-complete context: " + coqchk_summary[-300:])
     discharged = obligations if not proof_problems else max(0, obligations - 1 - len(broken))
 
     # ---- correspondence + oracle on the implementation ----
@@ -265,7 +272,7 @@ def main(argv):
             "checker_cmd": "cd /verif/coq && make (coqc 8.16.1, full .vo) && coqc -Q theories Traph %s  # Print Assumptions" % propfile,
             "trusted_base": P.TRUSTED_BASE + spec.get("trusted", []),
             "theorems": spec.get("theorems", []),
-            "print_assumptions_closed": closed, "axioms": axioms,
+            "print_assumptions_closed": closed, "axioms": axioms, "coqchk": coqchk_summary,
             "proof_problems": proof_problems,
         }, **cov),
         "assumptions": spec.get("assumptions", []),
